@@ -98,8 +98,11 @@ def model_specs(
             m = draw(st.integers(*n_readings))
             rnames = draw(N.ident_lists(m))
             ssyms = state + calib
-            sensors[key] = {r: draw(T.exprs(ssyms, [p for p in positive if p in ssyms], depth=sensor_depth,
-                                            pool=[p for p in pooltrees if T.symbols_of(p) <= set(ssyms)]))
+            # SensorModel.__init__ evaluates every sensor at the all-zero state ("pre-flight"), so an accepted
+            # sensor must be defined there: only calibration symbols may be used as positive divisors.
+            sensors[key] = {r: draw(T.exprs(ssyms, [p for p in positive if p in calib], depth=sensor_depth,
+                                            pool=[p for p in pooltrees if T.symbols_of(p) <= set(ssyms)
+                                                  and T.divisor_symbols(p) <= set(calib)]))
                             for r in rnames}
             sensor_noises[key] = {r: draw(noise_val()) for r in rnames}
 
